@@ -164,7 +164,30 @@ def _gen_early_answer(rng, tier):
                "truth": {"kind": "early-answer", "tag": tag}, "sched": {"seed": rng.randrange(1 << 30)}, "horizon": 100.0}
 
 
+def _gen_unread_upload(rng, tier):
+    """A request body of more messages than the application's queue holds (the reader is waiting for room), and an application that ends
+    its response having read none or only some of them - from its own task or from a child task.  The response is complete: the
+    connection is closed after it (announced), nothing hangs, and the request pipelined behind is not processed."""
+    for i in range(40 if tier == "quick" else 800):
+        tag = 6100000 + i * 10
+        q = rng.choice([10, 10, 2])
+        nch = q + rng.choice([0, 1, 2, 6])
+        start = {"type": "http.response.start", "status": 200, "headers": [(b"x-tag", b"%d" % tag)]}
+        body = {"type": "http.response.body", "body": b"resp-%d" % tag, "more_body": False}
+        mode = rng.choice(["never", "partial", "child-never", "child-partial"])
+        sends = [["send", start], ["send", body]]
+        sc = ([["recv_n", rng.choice([1, 2])]] if "partial" in mode else []) + ([["child", sends]] if mode.startswith("child") else sends) + [["linger", 1.0]]
+        behind = rng.random() < 0.5
+        data = (b"POST /t%d HTTP/1.1\r\nHost: h\r\nTransfer-Encoding: chunked\r\n\r\n" % tag + b"".join(b"3\r\nc%02d\r\n" % (k % 100) for k in range(nch)) + b"0\r\n\r\n" +
+                (b"GET /t%d HTTP/1.1\r\nHost: h\r\n\r\n" % (tag + 1) if behind else b""))
+        yield {"family": "unread-upload.%s" % mode, "backends": ["asyncio", "trio"], "config": {"keep_alive_timeout": 5000, "max_app_queue_size": q}, "conn": {},
+               "apps": {"default": [["recv_until_end"], ["respond", 200, [], b"d"]], "by_tag": {str(tag): sc, str(tag + 1): _app(rng, tag + 1, "after")}},
+               "client": [["feed", data], ["settle"], ["advance", 2.0], ["settle"]],
+               "truth": {"kind": "unread-upload", "tag": tag, "behind": behind, "mode": mode, "nch": nch, "q": q}, "sched": {"seed": rng.randrange(1 << 30)}, "horizon": 100.0}
+
+
 def gen(rng, tier):
+    yield from _gen_unread_upload(rng, tier)
     yield from _gen_early_answer(rng, tier)
     yield from _gen_aborted(rng, tier)
     yield from _gen_malformed(rng, tier)
@@ -222,7 +245,7 @@ def nontrivial(case, obs):
     t = case["truth"]
     if t.get("kind") == "aborted":
         return any(e[2] == "net" and e[3] == "write_error" for e in obs.trace.events)
-    if t.get("kind") in ("malformed", "early-answer"):
+    if t.get("kind") in ("malformed", "early-answer", "unread-upload"):
         return True
     return len(t["requests"]) > 1 or t["maxreq"] == 1 or any(wants_close(r) or r["version"] == "1.0" for r in t["requests"])
 
@@ -259,6 +282,28 @@ def check(case, obs, tally):
         if later or len(done) > bad + 1:
             out.append({"clause": "malformed-announces-close", "sig": "C06.malformed/request-behind-processed",
                         "detail": "the request pipelined behind the malformed one was processed"})
+        return out
+    if t.get("kind") == "unread-upload":
+        tally.clause("must-close")
+        stuck = obs.open_sends()
+        if stuck:
+            m = stuck[0][4]["msg"]
+            out.append({"clause": "must-close", "sig": "C06.deadlock/h1/unread-upload/%s" % ("child-task" if t["mode"].startswith("child") else "own-task"),
+                        "detail": "%d body messages for a queue of %d, application (%s) %s: its send(%s) never returned; blocked deliveries %r" % (
+                            t["nch"] + 1, t["q"], t["mode"], "answered from a child task" if t["mode"].startswith("child") else "answered",
+                            m.get("type"), obs.blocked_puts())})
+            return out
+        try:
+            resps, _ = h1.parse_responses(obs.outbytes, [("POST", "1.1"), ("GET", "1.1")], obs.closed_at is not None)
+        except h1.Malformed as e:
+            out.append({"clause": "must-close", "sig": "C06.unread-upload/unparseable-output", "detail": str(e)})
+            return out
+        done = [r for r in resps if r.complete]
+        if not done or done[0].status != 200 or done[0].body != b"resp-%d" % t["tag"]:
+            out.append({"clause": "must-close", "sig": "C06.unread-upload/response-lost", "detail": "first response: %r" % (done[0].as_dict() if done else None,)})
+        if obs.closed_at is not None and obs.handler not in ("ok",):
+            # (with the whole request read and the whole response written the connection may as well be kept alive: then nothing is amiss)
+            out.append({"clause": "must-close", "sig": "C06.unread-upload/handler-left-behind", "detail": "closed, but handler=%s tasks_left=%r" % (obs.handler, obs.tasks_left)})
         return out
     if t.get("kind") == "early-answer":
         tally.clause("must-close")
